@@ -27,7 +27,7 @@ EXPLANATION = (
     "branch, download() declares len(data) and writes data; R8 multiplexer parameters reach the pack unchanged; R9 stores "
     "only into defined fields of a zero-initialised frame, pad byte 0; R10 response field extraction matches the validated "
     "response's layout; R11 upload() truncates exactly the entries whose type has a fixed-size codec; R12 stale responses "
-    "are flushed completely before every request. R14 [R15: ODVariable.__len__ gives every data type its width and is never 0 (shared with C04.R5)] no class-level mutable object is mutated in place by instances (each node/client/map/dictionary has its own state)."
+    "are flushed completely before every request; R15 ODVariable.__len__ gives every data type its width (upload truncation uses it; shared with C04.R5); R16 readinto() stores the whole segment it consumed and reports its length; R14 structural assumptions shared by all properties: no class-level mutable object is mutated in place by instances, no method re-runs the constructor, logging statements cannot raise."
 )
 ASSUMPTIONS = [
     "not decided: byte equality for every payload length and chunking; io.BufferedWriter/Reader/TextIOWrapper behaviour",
